@@ -260,7 +260,15 @@ class Engine:
                 if r == z3.unsat:
                     break
                 if r == z3.unknown:
-                    raise Unsupported('kind of %s undecided by the solver' % v.desc)
+                    # model finding gave up (quantified invariants): refute kinds one by one instead
+                    kinds = []
+                    for k in KINDS:
+                        rr, _ = check_sat(light_pc(p) + [val_is(v.t, k)], 1500)
+                        if rr != 'unsat':
+                            kinds.append(k)
+                    if len(kinds) > 6:
+                        raise Unsupported('kind of %s undecided by the solver (%d kinds not refuted)' % (v.desc, len(kinds)))
+                    break
                 m = s.model()
                 tv = m.eval(v.t, model_completion=True)
                 k = tv.decl().name()[2:]
@@ -318,8 +326,22 @@ class Engine:
             s.add(a)
         out = []
         n = 0
-        while s.check() == z3.sat:
+        while True:
+            r = s.check()
             SolverStats.calls += 1
+            if r == z3.unsat:
+                break
+            if r == z3.unknown:
+                # model finding gave up (quantified invariants): refute the known classes one by one
+                from .state import _cls_codes
+                out = []
+                for name, c in list(_cls_codes.items()):
+                    rr, _ = check_sat(light_pc(p) + [ct == c], 1500)
+                    if rr != 'unsat':
+                        out.append((c, name))
+                if len(out) > 6 or not out:
+                    raise Unsupported('class of %s undecided by the solver' % ref.t)
+                break
             c = s.model().eval(ct, model_completion=True).as_long()
             name = cls_name(c)
             if name is None:
@@ -336,6 +358,8 @@ class Engine:
             if len(out) > 1:
                 q.trace.append('class(%s)=%s' % (ref.t, name))
             res.append((q, name))
+        if len(out) == 1:
+            ref.cls = out[0][1]       # remember: the class of an object never changes
         return res
 
     # ------------------------------------------------------------------ truthiness / equality
@@ -515,8 +539,6 @@ class Engine:
     def spec_name(self, name, p, fc):
         if name == 'result':
             return fc.result
-        if self.specs and name in self.specs.consts:
-            return self.specs.consts[name]
         return None
 
     def global_name(self, name, p, fc):
@@ -931,7 +953,11 @@ class Engine:
             return z3.Or(*[as_int(a) == k for k in b.d])
         raise Unsupported('in on %r' % (b,))
 
-    def key_term(self, k):
+    def key_term(self, k, p=None):
+        if isinstance(k, VUnion) and p is not None:
+            kk = self.known_kind(p, k.t, simp(k.t))
+            if kk in ('obj', 'int', 'ref'):
+                return k.get(kk)
         if isinstance(k, (VInt, VBool)):
             return as_int(k)
         if isinstance(k, (VObj, VRef)):
